@@ -61,6 +61,7 @@ def run(chk, repo: Repo):
     global_rng_rule(chk, repo, "C05-R1", ("cuqi/distribution/", "cuqi/implicitprior/", "cuqi/samples/", "cuqi/array/", "cuqi/geometry/", "cuqi/utilities/", "cuqi/density/"))
     _r2(chk, repo, samplers)
     _r3(chk, repo)
+    _r3_location_additive(chk, repo)
     _r4(chk, repo, dist)
     _r5(chk, repo, samplers)
     chk.rule("C05-R6", "lazy caches of the distribution layer are reset by every writer of the fields they were computed from "
@@ -214,6 +215,60 @@ def _r2(chk, repo, samplers):
 
 SOLVERS = {"spa.linalg.spsolve", "splinalg.spsolve", "splinalg.solve", "splinalg.solve_triangular", "spsolve", "solve", "solve_triangular",
            "sp.sparse.linalg.spsolve", "sp.linalg.solve", "np.linalg.solve", "nplinalg.solve"}
+
+
+def _r3_location_additive(chk, repo):
+    """Where a direct sampler combines its location (mean) with a perturbation itself (instead of handing it to a NumPy/SciPy generator as loc), the
+    location is an ADDITIVE, unscaled term of the draw: on the way from the drawn expression down to `self.mean` there are only + / - nodes (and
+    indexing / reshaping of the mean).  `(mean + z)/sqrt(prec)` has the right covariance and the centre mean/sqrt(prec), while logpdf stays centred at mean."""
+    LOC = {"self.mean", "self.location", "self._mean"}
+
+    def chain(root, target):
+        path = []
+
+        def rec(cur, st):
+            if cur is target:
+                path.extend(st)
+                return True
+            return any(rec(ch, st + [cur]) for ch in ast.iter_child_nodes(cur))
+        rec(root, [])
+        return path
+    n = 0
+    for m in repo.modules.values():
+        if not m.rel.startswith("cuqi/distribution/"):
+            continue
+        for ci in m.classes.values():
+            work = [ci.methods["_sample"]] if "_sample" in ci.methods else []
+            seen = set()
+            while work:
+                fn = work.pop()
+                if id(fn) in seen:
+                    continue
+                seen.add(id(fn))
+                for c in ast.walk(fn):
+                    if isinstance(c, ast.Call) and (call_name(c) or "").startswith("self._") and (call_name(c) or "").count(".") == 1:
+                        r = ci.lookup(call_name(c)[5:])
+                        if r is not None:
+                            work.append(r[1])
+                for st in ast.walk(fn):
+                    if not (isinstance(st, (ast.Assign, ast.Return, ast.AugAssign)) and getattr(st, "value", None) is not None):
+                        continue
+                    for a in ast.walk(st.value):
+                        if not (isinstance(a, ast.Attribute) and path_of(a) in LOC):
+                            continue
+                        ch = chain(st.value, a)
+                        if any(isinstance(x, (ast.Call, ast.keyword)) and not (isinstance(x, ast.Call) and isinstance(x.func, ast.Attribute) and x.func.attr in ("reshape", "flatten", "ravel", "copy"))
+                               for x in ch):
+                            continue           # handed to a generator / helper as an argument
+                        if not any(isinstance(x, ast.BinOp) for x in ch):
+                            continue
+                        n += 1
+                        scaled = [x for x in ch if isinstance(x, ast.BinOp) and not isinstance(x.op, (ast.Add, ast.Sub))]
+                        chk.add("C05-R3", f"{ci.qual}.{fn.name}/location@{unparse(st)[:40]}", not scaled, site(repo, st), "location is an additive, unscaled term of the draw",
+                                f"`{unparse(st)[:90]}`: the location is multiplied / divided together with the perturbation (`{unparse(scaled[0])[:60] if scaled else ''}`): the draws "
+                                f"have the right spread but are centred at a scaled location, while the log-density stays centred at the location itself", st)
+    if n < 2:
+        raise AnchorError(f"{n} location + perturbation sums found in the direct samplers, at least 2 expected (Gaussian, GMRF; 5 on the pinned tree)")
 
 
 def _r3(chk, repo):
